@@ -24,7 +24,8 @@ import (
 type c16item struct {
 	src     string
 	ordered bool
-	fmt     bool // uses package fmt
+	fmt     bool     // uses package fmt
+	imports []string // further packages the item uses (each file gets one grouped import of what its items need)
 }
 
 type c16base struct {
@@ -50,9 +51,9 @@ func c16bases(thorough bool) []c16base {
 	b2 := c16base{"functions", []c16item{
 		{src: "func even(n int) bool {\n\tif n == 0 {\n\t\treturn true\n\t}\n\treturn odd(n - 1)\n}\n"},
 		{src: "func odd(n int) bool {\n\tif n == 0 {\n\t\treturn false\n\t}\n\treturn even(n - 1)\n}\n"},
-		{src: "func scale(x int) int {\n\treturn x * Big\n}\n"},
+		{src: "func scale(x int) int {\n\treturn x*Big + len(strconv.Itoa(x)) - 1\n}\n", imports: []string{"strconv"}},
 		{src: "func count() int {\n\tcalls++\n\treturn calls\n}\n"},
-		{src: "func apply(scale int, count int) int {\n\tscale += count\n\todd := scale * 2\n\treturn odd + count\n}\n"},
+		{src: "func apply(scale int, count int) int {\n\tscale += count\n\todd := scale*2 + len(strings.Repeat(\"!\", count)) + len(strconv.Itoa(count)) - 4\n\treturn odd + count\n}\n", imports: []string{"strconv", "strings"}},
 		{src: "func Main() {\n\tfmt.Println(even(4), odd(4), scale(2), first, second, calls, Small, Big, apply(2, 3))\n}\n", fmt: true},
 		{src: "const (\n\tSmall = iota + 1\n\tBig\n)\n", ordered: true},
 		{src: "var calls int\n", ordered: true},
@@ -83,9 +84,10 @@ func c16bases(thorough bool) []c16base {
 
 // an arrangement: order = permutation of item indexes; files[i] = file of the i-th item in that order
 type c16arr struct {
-	Base  int   `json:"base"`
-	Order []int `json:"order"`
-	Files []int `json:"files"`
+	Base     int   `json:"base"`
+	Order    []int `json:"order"`
+	Files    []int `json:"files"`
+	Imported bool  `json:"imported,omitempty"` // loaded as a dependency of a root package instead of as the root
 }
 
 var c16fileNames = []string{"a_first.go", "m_mid.go", "z_last.go"}
@@ -103,11 +105,26 @@ func c16render(b c16base, pkg string, a c16arr) map[string]string {
 	for f, its := range parts {
 		var sb strings.Builder
 		sb.WriteString("package " + pkg + "\n\n")
+		need := map[string]bool{}
 		for _, it := range its {
 			if it.fmt {
-				sb.WriteString("import \"fmt\"\n\n")
-				break
+				need["fmt"] = true
 			}
+			for _, im := range it.imports {
+				need[im] = true
+			}
+		}
+		if len(need) > 0 {
+			var ims []string
+			for im := range need {
+				ims = append(ims, im)
+			}
+			sort.Strings(ims)
+			sb.WriteString("import (\n")
+			for _, im := range ims {
+				sb.WriteString("\t\"" + im + "\"\n")
+			}
+			sb.WriteString(")\n\n")
 		}
 		for _, it := range its {
 			sb.WriteString(it.src + "\n")
@@ -119,6 +136,15 @@ func c16render(b c16base, pkg string, a c16arr) map[string]string {
 
 func c16runArr(b c16base, a c16arr) string {
 	files := c16render(b, "w", a)
+	if a.Imported {
+		// the package under test is not the root: a root package imports it and calls its Main
+		files["root/root.go"] = "package root\n\nimport \"w\"\n\nfunc Main() {\n\tw.Main()\n}\n"
+		res := goat.RunMain(files, "root", "root.Main")
+		if res.Failed() {
+			return res.String()
+		}
+		return res.Out
+	}
 	res := goat.RunMain(files, "w", "w.Main")
 	if res.Failed() {
 		return res.String()
@@ -238,7 +264,7 @@ func c16run(r *report.Run) {
 			if r.Expired() {
 				return
 			}
-			a := c16arr{Base: bi, Order: orders[k]}
+			a := c16arr{Base: bi, Order: orders[k], Imported: k%16 == 7}
 			got := c16runArr(b, a)
 			r.Eval(1)
 			r.Nontrivial(fmt.Sprint(bi, orders[k]))
@@ -248,7 +274,7 @@ func c16run(r *report.Run) {
 			if k%stride == stride/2 {
 				n := 0
 				c16assignments(b, orders[k], func(files []int) {
-					a2 := c16arr{Base: bi, Order: orders[k], Files: files}
+					a2 := c16arr{Base: bi, Order: orders[k], Files: files, Imported: n%2 == 1}
 					g2 := c16runArr(b, a2)
 					n++
 					if g2 != want {
